@@ -597,6 +597,12 @@ def call_obligations(pv, L, fn, t, callee, cargs, cs, fs, at, chain, depth, root
         mid = L.lin(cargs[1])
         ob(mid is not None and L.prove(cs, [L.slice_len(cargs[0]) - mid]), 'index', 'split_at(%s) within slice %s' % (fmt(cargs[1])[:40], fmt(cargs[0])[:60]))
         return out
+    if callee in ('core::slice::<impl [T]>::chunks', 'core::slice::<impl [T]>::chunks_exact', 'core::slice::<impl [T]>::windows',
+                  'core::slice::<impl [T]>::chunks_mut', 'core::slice::<impl [T]>::chunks_exact_mut', 'core::slice::<impl [T]>::rchunks'):
+        # these panic exactly when the chunk size is zero
+        n = L.lin(cargs[1]) if len(cargs) > 1 else None
+        ob(n is not None and L.prove(cs, [n - Lin.const(1)]), 'index', '%s(%s) with a non-zero size' % (callee.rsplit('::', 1)[-1], fmt(cargs[1])[:30] if len(cargs) > 1 else '?'))
+        return out
     if callee in SM.PANICKY_STD:
         ob(not L.feasible(cs), 'undecided', 'call to %s, which panics on some inputs and is not modelled' % callee)
         return out
